@@ -2,11 +2,15 @@
 real raft FSM of ts-meta.  One round per depth: the Go workers execute the transitions (frontier state x menu
 command, sharded deterministically) with the property's oracle and write the states they reach; this driver merges
 them, keeps the shortest (then lexicographically least) path per new state and hands the next frontier out."""
-import os, shutil, sys, time
+import json, os, shutil, subprocess, sys, time
 import checklib
 from checklib import log
 
 PKG = "app/ts-meta/meta"
+# map-order adversary: the non-test files of these packages are replaced (overlay) by copies in which every range
+# over a map with an ordered key type asks verifkit.MapIter for the iteration order (ovgen/maporder)
+MAPORDER_PKGS = ["lib/util/lifted/influx/meta", "app/ts-meta/meta"]
+MAPORDER_CACHE = os.path.join(checklib.VERIF, ".build", "C15", "maporder")
 DEPTH = {"quick": 3, "thorough": 4}
 DEADLINE = {"quick": 600, "thorough": 2700}
 # rounds from this depth on expand only the states whose shortest path consists of core-alphabet commands
@@ -58,15 +62,79 @@ def _read_next(reports_dir_files, last):
     return out, fin
 
 
+def maporder_overlay(cid, repo=None):
+    """Rewritten copies of MAPORDER_PKGS, generated from the tree under test into .build/C15/maporder/<key>/ (key =
+    content hash of the sources: an unchanged tree costs one hash pass, ~0.1 s).  Returns (overlay entries, stats).
+    Warm-up at setup time: python3 -c 'import sys; sys.path.insert(0,"/verif/lib"); sys.path.insert(0,"/verif/lib/checks"); import c15; c15.warm()'"""
+    repo = repo or checklib.REPO
+    t0 = time.time()
+    gen = os.path.join(checklib.build_dir(cid), "maporder.bin")
+    r = subprocess.run(["go", "build", "-o", gen, "./maporder"], cwd=os.path.join(checklib.VERIF, "ovgen"),
+                       env=checklib.goenv(), stdout=subprocess.PIPE, stderr=subprocess.STDOUT, text=True)
+    if r.returncode != 0:
+        checklib.tool_error("maporder generator build failed:\n" + r.stdout)
+    os.makedirs(MAPORDER_CACHE, exist_ok=True)
+    r = subprocess.run([gen, "-repo", repo, "-out", MAPORDER_CACHE] + MAPORDER_PKGS, cwd=repo, env=checklib.goenv(),
+                       stdout=subprocess.PIPE, stderr=subprocess.PIPE, text=True)
+    if r.returncode != 0:
+        checklib.tool_error("maporder generator failed:\n" + r.stderr[-4000:])
+    d = json.loads(r.stdout)
+    extra = {os.path.join(repo, rel): f for rel, f in d["files"].items()}
+    for f in extra.values():
+        if not os.path.exists(f):
+            checklib.tool_error("maporder cache entry is incomplete: %s" % f)
+    stats = {"cache_key": d["key"], "cache_hit": d["cached"], "generator_wall_s": round(d.get("gen_wall_s", 0), 2),
+             "files_replaced": len(extra), "packages": {}}
+    for pkg, st in d["stats"].items():
+        stats["packages"][pkg] = {
+            "range_statements": st["range_statements"], "range_by_operand_kind": st["range_by_operand_kind"],
+            "map_range_sites_rewritten": st["map_range_sites_rewritten"],
+            "map_range_sites_untouched": st["map_range_sites_untouched"],
+            "untouched_sites": [{"pos": u["pos"], "func": u["func"], "map": u["map"], "reason": u["reason"]} for u in st["untouched_sites"] or []],
+            "rewritten_forms": _count(u["form"] for u in st["rewritten_sites"] or []),
+        }
+    # keep the 8 most recently used cache entries (never one used within the last hour: a concurrent run may build from it)
+    ents = []
+    for n in os.listdir(MAPORDER_CACHE):
+        q = os.path.join(MAPORDER_CACHE, n, "result.json")
+        if os.path.exists(q):
+            ents.append((os.path.getmtime(q), os.path.join(MAPORDER_CACHE, n)))
+    for mt, q in sorted(ents, reverse=True)[8:]:
+        if time.time() - mt > 3600:
+            shutil.rmtree(q, ignore_errors=True)
+    log("%s map-order adversary: %d range-over-map sites rewritten in %d files (%s, %.1fs)" % (
+        cid, sum(p["map_range_sites_rewritten"] for p in stats["packages"].values()), len(extra),
+        "cached" if d["cached"] else "generated in %.1fs" % d.get("gen_wall_s", 0), time.time() - t0))
+    return extra, stats
+
+
+def _count(it):
+    out = {}
+    for x in it:
+        out[x] = out.get(x, 0) + 1
+    return out
+
+
+def warm():
+    """bin/setup-time warm-up: generate the rewritten files and compile both test binaries into the Go build cache."""
+    for cid in ("C15", "C16"):
+        extra, _ = maporder_overlay(cid)
+        ov = checklib.gen_overlay(cid, [PKG], extra, also=("C15",))
+        checklib.go_test_build(cid, PKG, ov)
+
+
 def explore(cid, tier, replay):
     t0 = time.time()
-    ov = checklib.gen_overlay(cid, [PKG], also=("C15",))
+    adversary = os.environ.get("VERIF_MAPORDER", "1") != "0"
+    ov_extra, mo_stats = maporder_overlay(cid) if adversary else (None, None)
+    ov = checklib.gen_overlay(cid, [PKG], ov_extra, also=("C15",))
+    menv = {"VERIF_MAPORDER": "1" if adversary else "0"}
     binp = checklib.go_test_build(cid, PKG, ov)
     scratch = checklib.scratch_root(cid)
     test = "TestVerif" + cid
     try:
         if replay:
-            reps = checklib.run_workers(cid, binp, test, "quick", 1, 600, scratch, extra_env={"VERIF_REPLAY": os.path.abspath(replay)})
+            reps = checklib.run_workers(cid, binp, test, "quick", 1, 600, scratch, extra_env=dict(menv, VERIF_REPLAY=os.path.abspath(replay)))
             nv = sum(r.get("n_violations", 0) for r in reps)
             for r in reps:
                 for v in r.get("violations") or []:
@@ -97,6 +165,7 @@ def explore(cid, tier, replay):
                     fh.write(h + "\n")
             last = rnd == depth
             env = {"GOGC": "400", "GOMAXPROCS": "2", "VERIF_ROUND": str(rnd), "VERIF_FRONTIER": fpath, "VERIF_VISITED": vpath, "VERIF_LAST": "1" if last else "0"}
+            env.update(menv)
             n = 4 if rnd == 0 else nw
             tr = time.time()
             reps = checklib.run_workers(cid, binp, test, tier, n, left, rdir, extra_env=env)
@@ -126,6 +195,16 @@ def explore(cid, tier, replay):
                  "bound": {"depth": depth, "roots": 4, "core_only_prefixes_from_depth": core_from if core_from <= depth else None, "menu_commands": menu, "completed_all_rounds": complete}}
         for r in reports:
             r.get("counters", {}).pop("states", None)
+        if adversary:
+            ndesc = sum(r.get("counters", {}).get("map_ranges_2plus_entries_descending", 0) for r in reports)
+            nasc = sum(r.get("counters", {}).get("map_ranges_2plus_entries_ascending", 0) for r in reports)
+            if ndesc == 0 or nasc == 0:
+                checklib.tool_error("map-order adversary is on but no rewritten range statement ran in both orders (asc %d, desc %d)" % (nasc, ndesc))
+            mo_stats["orders"] = "reference instance ascending keys; second replica and restored nodes descending keys; third replica runtime order" \
+                if cid == "C15" else "every transition executed twice: ascending and descending keys"
+            extra["map_order_adversary"] = mo_stats
+        else:
+            extra["map_order_adversary"] = None
         rc = checklib.finish(cid, tier, "model_checking", RULE[cid], reports, t0, ASSUME[cid], extra_cov=extra, model=True)
         if not complete:
             import json
